@@ -30,7 +30,6 @@ ASSUMPTIONS = [
     "the `nil;` statement compiles to Nil;Pop and nothing else in the generated programs does (marker detection)",
 ]
 
-KNOWN_SUB = "stopiter_subclass_adapters"
 PROFILE = ["release"]   # quick: release build; thorough: debug build (collects at every allocation)
 
 # ------------------------------------------------------------------------------------------
@@ -572,8 +571,6 @@ def rel(hs):
 
 def known_class_of(p):
     f = p["facts"]
-    if f["sub"]:
-        return KNOWN_SUB
     return None
 
 
@@ -605,7 +602,7 @@ def judge(ctx, p, stats):
     if not m_ok and s_ok:
         ctx.corr_broken.append("impl != M (IterLang.eval_mech) on %s | impl %s %s | model %s" % (
             wire[:300], p["impl"][:40], p["impl_res"], p["mech"][:40]))
-    if p["mech"] != p["spec"] and p["spec"] != ["SKIP"] and kc != KNOWN_SUB:
+    if p["mech"] != p["spec"] and p["spec"] != ["SKIP"]:
         ctx.broken.append("model != spec on a program (contradicts the refinement theorems): " + wire[:300])
     stats["checked"] += 1
 
